@@ -102,7 +102,7 @@ class Explorer:
         st, body = self.c.add(name, code, parsing)
         self.requests += 1
         self.transitions += 1
-        if st != 200:
+        if st // 100 != 2:
             self.v("add-refused", "add answered %s %s" % (st, body[:100]), case)
             return False
         self.wait_bg(1, "the parse result write")
@@ -123,7 +123,7 @@ class Explorer:
         st, body = self.c.solve(name, strat)
         self.requests += 1
         self.transitions += 1
-        if st != 200:
+        if st // 100 != 2:
             self.v("solve-refused", "solve %s answered %s %s" % (strat, st, body[:100]), case)
             return False
         self.wait_bg(1, "the result write of %s" % strat)
@@ -146,11 +146,11 @@ class Explorer:
         self.states += 1
         return True
 
-    def linear(self, idx, tts, parsing, order):
-        nm = names(len(tts))
+    def linear(self, idx, tts, parsing, order, nm=None):
+        nm = nm or names(len(tts))
         code = adf_text(tts, nm)
         name = "p%d%s" % (idx, parsing)
-        case = {"type": "linear", "tts": list(tts), "code": code, "parsing": parsing, "order": order, "solve_first": idx % 2 == 1}
+        case = {"type": "linear", "tts": list(tts), "code": code, "parsing": parsing, "order": order, "solve_first": idx % 2 == 1, "labels": nm}
         if not self.add_problem(name, code, parsing, idx % 2 == 1, case):
             return
         st, d = self.get(name)
@@ -170,7 +170,7 @@ class Explorer:
         strat, field = STRATEGIES[order[0]]
         st, body = self.c.solve(name, strat)
         self.requests += 1
-        if st == 200:
+        if st // 100 == 2:
             self.wait_bg(1, "the write of a repeated solve")
             self.stub.apply_bg(0)
         st, d = self.get(name)
@@ -212,7 +212,7 @@ class Explorer:
         st, body = self.c.add(name, code, parsing)
         self.requests += 1
         self.transitions += 1
-        if st != 200:
+        if st // 100 != 2:
             # refusing the submission outright is also "reported as an error"
             return
         self.wait_bg(1, "the parse result write")
@@ -306,6 +306,13 @@ def worker(server_bin, spec):
                 if idx % of != shard:
                     continue
                 ex.linear(1000 + idx, f31(idx), ("Naive", "Hybrid")[idx % 2], [(k + idx) % 6 for k in range(6)])
+        # labels: quoted with blanks / characters biodivine reserves, sorting-sensitive, keyword-like
+        label_sets = [["a b", "x&y"], ["10", "9"], ["and", "or"], ["q(1)", "p|r"], ["\u00fc", "z"], ["s", "ac"]]
+        for li, nm in enumerate(label_sets):
+            for ti, tts in enumerate([(6, 9), (0xe, 0x1), (0x5, 0xc), (0x8, 0x6)]):
+                j = li * 4 + ti
+                if j % of == shard:
+                    ex.linear(5000 + j, tts, ("Naive", "Hybrid")[(li + ti) % 2], [(k + j) % 6 for k in range(6)], nm=nm)
         k = 0
         for what, code in BAD_CODES + ILL_FORMED:
             for parsing in ("Naive", "Hybrid"):
@@ -335,7 +342,7 @@ def replay(server_bin, case):
             ex.lattice(0, tuple(case["tts"]), case["parsing"])
         else:
             idx = 1 if case.get("solve_first") else 0
-            ex.linear(idx, tuple(case["tts"]), case["parsing"], case.get("order", list(range(6))))
+            ex.linear(idx, tuple(case["tts"]), case["parsing"], case.get("order", list(range(6))), nm=case.get("labels"))
     finally:
         svc.close()
     return ex.viol
